@@ -120,7 +120,7 @@ def shard(sh):
                     st.violation('%s:%s' % (r.status, engine.sanitizer_summary(r.info)), script, '', engine.excerpt(r.info))
                     continue
                 k0 = next((j for j, l in enumerate(r.lines) if l.startswith('r init')), -1)
-                log = collapse([l for l in r.lines[k0 + 1:] if l.startswith('cb ')])   # defaults are converted (and logged) inside cfg_init
+                log = collapse([l for l in r.lines[k0 + 1:] if l.startswith('cb ') and not l.startswith('cb r ')])   # releases of pointer values are C07's business   # defaults are converted (and logged) inside cfg_init
                 rc = r.first('r parse_buf')
                 dump = r.first('dump ')
                 st.outcome('%s %s' % (rc, ' '.join(log)))
